@@ -295,6 +295,11 @@ def run_inputs(ctx, inputs):
 
 
 def run(ctx):
+    ctx.assumptions = [
+        "C20: http.cookies.SimpleCookie's parser is not modelled: responses are rendered canonically (`n=v; Domain=d` per cookie) and parsed by the real code; the model starts from the parsed object",
+        "C20: names within one response are distinct; str.lower() on ASCII; sorted() on tuples of str = code-point lexicographic order",
+        "C20: the Spec is a relation (permutation of the covering entries, names non-decreasing): the order of equal names is not prescribed",
+    ]
     ctx.rule = ("histories of responses (cookie sets over names {a,a1,b} x values {1,2}; domains x.co, X.CO, .x.co, sub.x.co, "
                 "y.co, none, plus '', '..x.co', 'co' singly): all of length <= 1, a sample of length 2 (all in thorough), random "
                 "length 3 (4) x targets {x.co, X.co, sub.x.co, badx.co, co, y.co}; unit on SimpleCookieJar and end-to-end Cookie "
